@@ -174,6 +174,17 @@ func genC01(seed uint64, thorough bool) c01case {
 			// the empty command: the device echoes nothing and answers the bare return
 			c.cmd = ""
 		}
+		// white space is part of the command: the device must receive it byte for byte
+		switch k := r.Intn(20); {
+		case k < 2 && c.cmd != "":
+			c.cmd += r.Pick([]string{" ", "  ", "\t", " \t", "   "})
+		case k == 2 && c.cmd != "":
+			c.cmd = r.Pick([]string{" ", "\t", "  "}) + c.cmd
+		case k == 3 && c.cmd != "":
+			c.cmd = r.Pick([]string{" ", "\t"}) + c.cmd + r.Pick([]string{" ", "\t", "  "})
+		case k == 4:
+			c.cmd = r.Pick([]string{" ", "\t", "   ", " \t "})
+		}
 		var b bytes.Buffer
 		for l := r.Intn(maxLines + 1); l > 0; l-- {
 			if cs.promptLines && r.Chance(1, 4) {
@@ -457,6 +468,12 @@ func c01check(c *ctx, cases []c01case) {
 				kind += " stopped by interim prompt " + facts.C01Interim[op.stopAt].Name
 			case c01isSend(op.kind) && cs.cmds[op.ci].cmd == "":
 				kind += fmt.Sprintf(" empty command (exact:%v)", cs.exact)
+			case c01isSend(op.kind) && strings.TrimSpace(cs.cmds[op.ci].cmd) == "":
+				kind += " command of white space only"
+			case c01isSend(op.kind) && strings.TrimRight(cs.cmds[op.ci].cmd, " \t") != cs.cmds[op.ci].cmd:
+				kind += " command with trailing white space"
+			case c01isSend(op.kind) && strings.TrimLeft(cs.cmds[op.ci].cmd, " \t") != cs.cmds[op.ci].cmd:
+				kind += " command with leading white space"
 			}
 			res.Count("op:" + kind)
 			if dom {
